@@ -739,7 +739,7 @@ func Run(r *mc.Run) {
 
 func Replay(scenario string, raw json.RawMessage) []*mc.Violation {
 	var in In
-	if json.Unmarshal(raw, &in) != nil {
+	if mc.UnmarshalInput(raw, &in) != nil {
 		return nil
 	}
 	if in.Then != "" {
